@@ -221,7 +221,8 @@ CHECKS = {
                        "and cannot run on the virtual clock."),
         "level_note": ("Trusted: the reference predicate and replay (c18.model). Where the library may legitimately evaluate the kept output "
                        "before or after the next queued chunk (only after a callback that keeps its output) both replays are accepted. "
-                       "Wall-clock: only a lower bound on the timeout is asserted; a 10 s watchdog marks the case infeasible."),
+                       "Wall-clock: only a lower bound on the timeout is asserted; a 10 s watchdog marks the case infeasible."
+                       ' Load: a failure only counts if it reproduces with every time constant stretched 5x and 25x (a starved spinning reader legitimately times out; trigger-logic defects do not depend on the time scale); such rescues are counted in the evidence.'),
         "technique": "property-based testing (rapid) with a post-hoc reference-model replay over the recorded chunk list (real-time tier)",
         "rule": ("1-5 callbacks x 1-5 device steps x cut plan x echo x timeouts. Non-trivial: not-contains, regex or once used, or two callbacks "
                  "with the same contains text. Distinct = sha1(case)."),
@@ -265,7 +266,8 @@ CHECKS = {
                        "SendCommands/SendConfigs/SendConfig/FromFile with and without an explicit privilege level). Oracle: a spec model "
                        "(list in force, substring test on the expected result, aggregate = exactly the failed members in order, collapsed "
                        "result) and the device's own (mode, line) log for what was and was not transmitted."),
-        "level_note": "Trusted: the C01 normaliser for the expected result text, the device model's line log. Failure strings are non-empty.",
+        "level_note": ("Trusted: the C01 normaliser for the expected result text, the device model's line log. Failure strings are non-empty."
+                       ' Command lists may repeat an earlier command with the same output (members are distinct even when input and output are equal).'),
         "technique": "property-based testing (rapid) vs a spec model of failure marking plus device-side transmission log, virtual time",
         "rule": ("API x command list x planted failure strings x driver/op lists x stop-on-failed x segmentation. Non-trivial: a failing command "
                  "that is not the last one, or both lists non-empty and different. Distinct = sha1(case)."),
@@ -287,7 +289,8 @@ CHECKS = {
                        "/ 4 (thorough) levels x auth edge x style x (current, target)."),
         "level_note": ("Trusted: the device model and the path computation written from the statement. Prompt families are prefix-free: a "
                        "proper prefix of one level's prompt is never another level's prompt (otherwise a segmented read is ambiguous by "
-                       "construction). The device changes level only through driver-issued commands."),
+                       "construction). The device changes level only through driver-issued commands."
+                       " Histories include config batches that end with the level's own de-escalation command (the operation leaves the device elsewhere than the level it acquired), not where that level is also the default desired one (send-command documents that it trusts the cached level)."),
         "technique": "stateful property-based testing (rapid): generated trees x operation histories vs a mode-tracking device model; bounded exhaustive tree enumeration",
         "rule": ("tree x style x default level x 1-6 rules x cut plan. Non-trivial: a path with >= 2 hops, or down-then-up, or an authenticated "
                  "edge, or >= 3 rules. Distinct = sha1(case)."),
@@ -330,7 +333,8 @@ CHECKS = {
                        "connection error on a failure line / timeout on silence, with the decisive stream offset compared to the stall "
                        "point), timeout duration on the virtual clock, credential-to-state pairing and the <=2 bound from the device log, "
                        "transport closed on every failure, and on success the first GetPrompt and the first SendCommand work."),
-        "level_note": "Trusted: the dialogue device model (c10.loginDev), the virtual clock. Banner/MOTD lines never look like a prompt at any prefix (quantifier).",
+        "level_note": ("Trusted: the dialogue device model (c10.loginDev), the virtual clock. Banner/MOTD lines never look like a prompt at any prefix (quantifier)."
+                       ' Banners between the last credential and the shell prompt are drawn short (0-2 lines) or longer than the default prompt search depth (45/70 lines); every banner line must be readable back after Open.'),
         "technique": "property-based testing (rapid) of grammar-generated login dialogues vs a script-derived outcome and credential-state log, virtual time",
         "rule": ("flavour x rounds x ending x stall x cut plan. Non-trivial: >=1 rejection, or both user and password rounds, or a stall, or an "
                  "error line. Distinct = sha1(case)."),
@@ -349,7 +353,8 @@ CHECKS = {
                        "Invariant: no message handed to any logger and no byte of the channel log contains a secret, raw or Go-quoted; "
                        "non-vacuity clause: when a secret was transmitted at debug level the same log does contain 'redacted' and the "
                        "non-secret inputs."),
-        "level_note": "Trusted: the device models do not echo secrets (stated assumption of the property). Quoted forms checked: strconv.Quote and QuoteToASCII.",
+        "level_note": ("Trusted: the device models do not echo secrets (stated assumption of the property). Quoted forms checked: strconv.Quote and QuoteToASCII."
+                       " The escalation also runs as the network driver's on-open step (its error is then logged by the driver), with write failures and connection losses (EOF / read error) at generated offsets, including right after the secret was sent."),
         "technique": "property-based testing (rapid): substring invariant over all log sinks across generated login / escalation / on-open dialogues",
         "rule": ("login: C10 case x log level x loggers; escalation: behaviour x secret x level x operation; onopen: secret x level x section. "
                  "Non-trivial: a secret was actually transmitted and the level is debug. Distinct = sha1(case)."),
@@ -398,7 +403,8 @@ CHECKS = {
                        "process inside a synctest bubble: the in-flight call must return an error within 50 read delays + 10 ms of the "
                        "loss (far below its timeout), must not report success unless every needed byte had been delivered (then with the "
                        "full result), every later call must fail, and the child must exit cleanly (a panic in any goroutine kills it)."),
-        "level_note": "Trusted: device models, dry-run measurement, child-process exit status as the no-panic oracle, testing/synctest.",
+        "level_note": ("Trusted: device models, dry-run measurement, child-process exit status as the no-panic oracle, testing/synctest."
+                       ' Idle losses are generated with and without unread bytes (an unsolicited message plus a redrawn prompt) sitting in the queue when the loss is noticed.'),
         "technique": "fault enumeration of loss points x loss kinds driven by rapid and exhaustive k loops; child-process isolation; virtual-time promptness bound",
         "rule": ("loss: op x kind x k x idle x further ops x cut plan; loss-all-k: op x kind x plan x every k. Non-trivial: 0 < k < L, or a "
                  "non-EOF kind, or NETCONF, or idle. Distinct = sha1(case)."),
@@ -421,7 +427,8 @@ CHECKS = {
                        "authentication exchange; the recorded argv has host, -p port, -l user, StrictHostKeyChecking=yes|no, "
                        "UserKnownHostsFile, -F config or /dev/null, -i key iff configured, and no argument containing the password."),
         "level_note": ("Trusted: the in-process SSH server (sim.SSHServer), OpenSSH 9.2 as the system client. Real sockets/processes on the "
-                       "wall clock: an open slower than 9 s is counted infeasible, never a violation."),
+                       "wall clock: an open slower than 9 s is counted infeasible, never a violation."
+                       ' Known-hosts files are also generated as entry lists (port-qualified / bare / hashed / other host x right / wrong key, comments); the model asserts an outcome only where OpenSSH and x/crypto/knownhosts agree (a wrong key recorded for this very host:port and no right one => must fail; right and no wrong => must connect; mixed entries and bare-name-only entries on a non-22 port are accepted either way and counted).'),
         "technique": "exhaustive configuration grid + property-based sampling (rapid) against an in-process SSH server and an argv-recording ssh wrapper",
         "rule": ("grid: 48 cells; drawn: transport x strict x known-hosts x auth x user x password x config. Non-trivial: strict with a "
                  "non-matching/empty/missing file, or key authentication. Distinct = sha1(case)."),
@@ -446,7 +453,8 @@ CHECKS = {
                        "each applicable transport (incl. in-channel password login for telnet/system) and compares with what an ideal "
                        "pipe gives."),
         "level_note": ("Trusted: in-process peers, OpenSSH client, kernel pty/TCP. Wall clock with wide margins (a session that is not up in "
-                       "15 s is infeasible). system-ssh-shell payloads are printable ASCII + LF without '~' (ssh escape character)."),
+                       "15 s is infeasible). system-ssh-shell payloads are printable ASCII + LF without '~' (ssh escape character)."
+                       " Further flavours: ssh -s netconf through the system transport's (cooked) pty carries peer-to-client text compared modulo CR, plus the close-while-parked clause; the telnet peer starts sending either after or during the client's negotiation window. Missing bytes are reported after 5 s of silence from the local peer. In the end-to-end sub-check a login timeout of the external ssh client at Open is re-tried (3 attempts) before it counts."),
         "technique": "property-based testing (rapid): seeded payload round trips over real transports with both-end verification; differential end-to-end vs ideal pipe",
         "rule": ("pipe: flavour x read size x 1-5 transfer steps (direction, size, chunking) x duplex x closer; e2e: flavour x history. "
                  "Non-trivial: every case (each includes close-while-parked; most include a payload larger than the read size). Distinct = sha1(case)."),
